@@ -579,7 +579,7 @@ LEVELS["C05"] = "fault_enumeration"
 def check_C05(run, replay):
     run.rule = ("TLC enumerates the configuration lattice of MC_Lattice.tla (all RegretParams::new tuples with exponents / "
                 "weight in {-inf,-1000,-1,0,1/2,1,2,1000,+inf}, the presets and None, budgets {0,1,2,3,40}, thresholds "
-                "{-1,0,1e-300,+inf,NaN}, threads {0,1,2,3,16,usize::MAX/3+1,usize::MAX}, three methods, fifteen games incl. an opponent infoset shared by all parallel tasks, all "
+                "{-1,0,1e-300,+inf,NaN}, threads {0,1,2,3,16,usize::MAX/3+1,usize::MAX}, three methods, sixteen games incl. a chance infoset met twice on one path, an opponent infoset shared by all parallel tasks, all "
                 "payoffs equal, a player without decisions, no decision at all (chance only / forced moves only), payoffs of "
                 "magnitude 1e6) by a deterministic stride slice and "
                 "states the specified verdict (ThreadDecision); every point runs in a child process under a 30 s watchdog (run again with 120 s before it counts as a hang): "
@@ -597,19 +597,19 @@ def check_C05(run, replay):
         absorb(run, rows, cases, mismatch_sig("solve"))
         return
     stride = 34981 if run.tier == "quick" else 1399
-    res = tlc("MC_Lattice", env={"SLICE": run.seed % stride, "OF": stride, "NUMGAMES": 15, "FAMILY": "lattice"}, timeout=3000)
+    res = tlc("MC_Lattice", env={"SLICE": run.seed % stride, "OF": stride, "NUMGAMES": 16, "FAMILY": "lattice"}, timeout=3000)
     run.add_tlc(res)
     recs = res.out("OUT")
     # the dynamic-range family: exponents x budgets whose discount products sweep the subnormal range
     rstride = 37 if run.tier == "quick" else 1
-    res2 = tlc("MC_Lattice", env={"SLICE": run.seed % rstride, "OF": rstride, "NUMGAMES": 15, "FAMILY": "range"}, timeout=3000)
+    res2 = tlc("MC_Lattice", env={"SLICE": run.seed % rstride, "OF": rstride, "NUMGAMES": 16, "FAMILY": "range"}, timeout=3000)
     run.add_tlc(res2)
     recs = recs + [(i + 100000000, v) for (i, v) in res2.out("OUT")]
-    res3 = tlc("MC_Lattice", env={"SLICE": 0, "OF": 1, "NUMGAMES": 15, "FAMILY": "contention"}, timeout=3000)
+    res3 = tlc("MC_Lattice", env={"SLICE": 0, "OF": 1, "NUMGAMES": 16, "FAMILY": "contention"}, timeout=3000)
     run.add_tlc(res3)
     recs = recs + [(i + 200000000, v) for (i, v) in res3.out("OUT")]
     kstride = 5 if run.tier == "quick" else 1
-    res4 = tlc("MC_Lattice", env={"SLICE": run.seed % kstride, "OF": kstride, "NUMGAMES": 15, "FAMILY": "ctor"}, timeout=3000)
+    res4 = tlc("MC_Lattice", env={"SLICE": run.seed % kstride, "OF": kstride, "NUMGAMES": 16, "FAMILY": "ctor"}, timeout=3000)
     run.add_tlc(res4)
     recs = recs + [(i + 300000000, v) for (i, v) in res4.out("OUT")]
     run.notes["points"] = {"lattice": len(res.out("OUT")), "range": len(res2.out("OUT")), "contention": len(res3.out("OUT")),
